@@ -19,10 +19,10 @@
 using namespace sim;
 
 enum { ST_RUNS, ST_OPS, ST_RT_DISPATCH, ST_RT_DIRECT, ST_ALLOC_OUTSIDE, F_OVERSIZE_MSG, F_OVERSIZE_REPLY, F_RING_FULL, F_NO_MATCH, F_WRONG_TYPE,
-       P_HASHED, P_LINEAR, P_ENUM, P_NESTED3, P_DEFAULT_HANDLER, P_NOLOC, P_MACRO_SET, P_MACRO_QUERY, P_REPLY_FWD, P_BUNDLE, P_MATCH, P_ITER, P_LINK, P_WIDE, ST_N };
+       P_HASHED, P_LINEAR, P_ENUM, P_NESTED3, P_DEFAULT_HANDLER, P_NOLOC, P_MACRO_SET, P_MACRO_QUERY, P_REPLY_FWD, P_BUNDLE, P_MATCH, P_ITER, P_LINK, P_WIDE, P_NO_CALLBACK, ST_N };
 static const char *STAT_NAMES[ST_N] = { "runs", "ops", "rt_dispatches", "rt_direct_calls", "allocator_calls_outside_rt", "fault.message_larger_than_maxmsg", "fault.reply_larger_than_8192", "fault.ring_full", "fault.message_matches_nothing", "fault.wrong_argument_types",
        "probe.hashed_table_dispatch", "probe.linear_fallback_dispatch", "probe.enumerated_port_dispatch", "probe.three_level_dispatch", "probe.default_handler", "probe.dispatch_without_location", "probe.macro_port_set", "probe.macro_port_query",
-       "probe.reply_forwarded_to_link", "probe.bundle_built_and_read", "probe.pattern_match", "probe.iterator", "probe.private_link_cycle", "probe.variadic_message_over_32_values" };
+       "probe.reply_forwarded_to_link", "probe.bundle_built_and_read", "probe.pattern_match", "probe.iterator", "probe.private_link_cycle", "probe.variadic_message_over_32_values", "probe.message_to_a_port_without_callback" };
 
 // ---- extra port trees -------------------------------------------------------------------------------------------
 struct Counter { int hits = 0; int last = 0; };
@@ -43,10 +43,10 @@ static void hit(const char *m, rtosc::RtData &d) { Counter *c = (Counter *)d.obj
 static char g_big[9000];
 // duplicate names with different type specs defeat the perfect-hash search: linear fallback
 static const rtosc::Ports lin_ports = {
-    {"dup:i", "", 0, hit}, {"dup:f", "", 0, hit}, {"dup:s", "", 0, hit}, {"other:", "", 0, hit}, {"any", "", 0, hit},
+    {"dup:i", "", 0, hit}, {"dup:f", "", 0, hit}, {"dup:s", "", 0, hit}, {"other:", "", 0, hit}, {"any", "", 0, hit}, {"label::s", ":documentation\0=metadata only, no callback\0", 0, nullptr},
     {"big:", "", 0, [](const char *, rtosc::RtData &d) { d.reply("/big-reply", "s", g_big); }},
 };
-static const rtosc::Ports enum_ports = { {"ch#16/gain:i", "", 0, hit}, {"ch#16/mute:T:F", "", 0, hit}, {"bus#4:i", "", 0, hit}, {"envelope_point_dt#8:i", "", 0, hit}, {"oscillator_bank#12/level:i", "", 0, hit} };
+static const rtosc::Ports enum_ports = { {"ch#16/gain:i", "", 0, hit}, {"ch#16/mute:T:F", "", 0, hit}, {"bus#4:i", "", 0, hit}, {"envelope_point_dt#8:i", "", 0, hit}, {"oscillator_bank#12/level:i", "", 0, hit}, {"tag#4::s", ":documentation\0=metadata only, no callback\0", 0, nullptr} };
 static const rtosc::Ports long_sub_ports = { {"inner_parameter_with_a_long_name:i", "", 0, hit}, {"x:i", "", 0, hit} };
 static const rtosc::Ports hashed_ports = { {"a_port_name_longer_than_sixteen_characters:i", "", 0, hit}, {"another_quite_long_port_name_for_the_hash:f", "", 0, hit}, {"subtree_with_a_long_name/", "", &long_sub_ports, [](const char *m, rtosc::RtData &d) { while (*m && *m != '/') ++m; if (*m) ++m; long_sub_ports.dispatch(m, d); }}, {"alpha:i", "", 0, hit}, {"beta:i", "", 0, hit}, {"gamma:f", "", 0, hit}, {"delta:", "", 0, hit}, {"epsilon:s", "", 0, hit}, {"zeta:ii", "", 0, hit}, {"eta:b", "", 0, hit}, {"theta", "", 0, hit} };
 static Counter g_cap_a, g_cap_b, g_cap_c;
@@ -133,7 +133,7 @@ struct RtWorld : World {
                 case M_NOMATCH: { static const char *nm_[] = {"/nope", "/app/nope", "/app/sub/nope", "/app/subs7/si", "/app/subs1/nope", "/deep/b/c/zz", "/deep/b/q/x", "/enum/ch16/gain", "/enum/ch3/nope", "/hash/alph", "/hash/alphaa", "/lin/du", "/", "/app"};
                     len = rtosc_message(buf, sizeof buf, nm_[r.below(14)], "i", 1); stat_add(F_NO_MATCH); break; }
                 case M_DEEP: len = r.chance(0.5) ? rtosc_message(buf, sizeof buf, "/deep/b/c/x", "i", (int)r.below(20) - 5) : rtosc_message(buf, sizeof buf, r.chance(0.5) ? "/deep/b/c/x" : "/deep/b/y", ""); break;
-                case M_LIN: { int w = (int)r.below(6); len = w == 0 ? rtosc_message(buf, sizeof buf, "/lin/dup", "i", 7) : w == 1 ? rtosc_message(buf, sizeof buf, "/lin/dup", "f", 1.0) : w == 2 ? rtosc_message(buf, sizeof buf, "/lin/dup", "s", "x") : w == 3 ? rtosc_message(buf, sizeof buf, "/lin/other", "") : w == 4 ? rtosc_message(buf, sizeof buf, "/lin/dup", "h", (int64_t)1) : rtosc_message(buf, sizeof buf, "/lin/any", "TFNI"); break; }
+                case M_LIN: { int w = (int)r.below(8); if (w >= 6) { len = w == 6 ? rtosc_message(buf, sizeof buf, "/lin/label", "s", "x") : rtosc_message(buf, sizeof buf, "/enum/tag2", ""); stat_add(P_NO_CALLBACK); break; } len = w == 0 ? rtosc_message(buf, sizeof buf, "/lin/dup", "i", 7) : w == 1 ? rtosc_message(buf, sizeof buf, "/lin/dup", "f", 1.0) : w == 2 ? rtosc_message(buf, sizeof buf, "/lin/dup", "s", "x") : w == 3 ? rtosc_message(buf, sizeof buf, "/lin/other", "") : w == 4 ? rtosc_message(buf, sizeof buf, "/lin/dup", "h", (int64_t)1) : rtosc_message(buf, sizeof buf, "/lin/any", "TFNI"); break; }
                 case M_ENUM: { static const char *f_[] = {"/enum/ch%d/gain", "/enum/bus%d", "/enum/envelope_point_dt%d", "/enum/oscillator_bank%d/level"}; snprintf(addr, sizeof addr, f_[r.below(4)], (int)r.below(20)); len = rtosc_message(buf, sizeof buf, addr, "i", 3); break; }
                 case M_HASH: { static const char *h[] = {"/hash/alpha", "/hash/beta", "/hash/gamma", "/hash/delta", "/hash/epsilon", "/hash/zeta", "/hash/eta", "/hash/theta", "/hash/a_port_name_longer_than_sixteen_characters", "/hash/another_quite_long_port_name_for_the_hash", "/hash/subtree_with_a_long_name/inner_parameter_with_a_long_name", "/hash/subtree_with_a_long_name/x", "/hash/a_port_name_longer_than_sixteen_characterz", "/hash/subtree_with_a_long_name/nope"}; int w = (int)r.below(14);
                     len = w == 2 ? rtosc_message(buf, sizeof buf, h[w], "f", 1.0) : w == 3 ? rtosc_message(buf, sizeof buf, h[w], "") : w == 4 ? rtosc_message(buf, sizeof buf, h[w], "s", "e") : w == 5 ? rtosc_message(buf, sizeof buf, h[w], "ii", 1, 2) : w == 6 ? rtosc_message(buf, sizeof buf, h[w], "b", 3, "abc") : w == 9 ? rtosc_message(buf, sizeof buf, h[w], "f", 2.0) : rtosc_message(buf, sizeof buf, h[w], "i", 1); break; }
